@@ -54,5 +54,17 @@ def roundtrip (z : Zoned) : Res (Parsed.RP Zoned) :=
   | .panic => .panic
   | .ok text => .ok (parse_from_rfc2822 text)
 
+/-- `DateTime::<FixedOffset>::format_with_items([Item::Fixed(Fixed::RFC2822)].iter())` written into a
+`String` (`write!(s, "{}", …)` → `DelayedFormat::write_to`):
+    `let local = self.overflowing_naive_local();
+     DelayedFormat::new_with_offset(Some(local.date()), Some(local.time()), &self.offset, items)`
+(`new_with_offset` keeps `(offset.to_string(), offset.fix())`).  Unlike `to_rfc2822` there is no
+`expect`: a wall-clock year outside 0–9999 is `Err(fmt::Error)` (`.ok none`), not a panic. -/
+def format_item_rfc2822 (z : Zoned) : Format.W :=
+  match Zoned.overflowing_naive_local z with
+  | .panic => .panic
+  | .ok l =>
+    Format.formatItemsR (some l.date) (some l.time) (some (Format.fixedOffsetName z.off, z.off)) ITEMS
+
 end Rfc2822
 end Chrono.M
